@@ -117,6 +117,13 @@ def product(a,b):
       potential.deriv2 = deriv2
   return potential
 
+def _scaled_log(x, ar):
+  """`x*log(ar)`, the contribution of a term that multiplies log(a(r)). Where `x` is zero (an exponent that does not change with `r`)
+  the term vanishes whatever `ar` is, also for a negative base `ar`, for which log is not defined."""
+  if x == 0.0:
+    return 0.0
+  return x * math.log(ar)
+
 def pow(a,b):
   """Takes two callables and returns a third which when evaluated returns the result of a(r)**b(r)
 
@@ -145,7 +152,7 @@ def pow(a,b):
     deriv_b = gradient(b)
     def deriv(r):
       ar = a(r)
-      return potential(r) * (deriv_b(r) * math.log(ar) + b(r) * deriv_a(r)/ar)
+      return potential(r) * (_scaled_log(deriv_b(r), ar) + b(r) * deriv_a(r)/ar)
     potential.deriv = deriv
 
     if hasattr(deriv_a, 'deriv') or hasattr(deriv_b, 'deriv'):
@@ -162,7 +169,7 @@ def pow(a,b):
         d2b = deriv2_b(r)
 
         # value = (deriv_b(r)*log(a(r)) + b(r)*deriv_a(r)/a(r))*deriv(r) + (math.log(a(r))*deriv2_b(r) + b(r)*deriv2_a(r)/a(r) + deriv_a(r)*deriv2_b(r)/a(r) + deriv_b(r)*deriv2_a(r)/a(r) - b(r)*deriv_a(r)*deriv2_a(r)/a(r)**2)*potential(r)
-        value = (db*math.log(ar) + (br*da)/ar)*dr + (math.log(ar)*d2b + (br*d2a)/ar + (da*db)/ar + (db*da)/ar - (br*da*da)/(ar**2))*p
+        value = (_scaled_log(db, ar) + (br*da)/ar)*dr + (_scaled_log(d2b, ar) + (br*d2a)/ar + (da*db)/ar + (db*da)/ar - (br*da*da)/(ar**2))*p
         return value
       potential.deriv2 = deriv2
   return potential
